@@ -66,6 +66,11 @@ func c09Precedence(dec config.DecoderType) {
 	for i := 0; i < len(fv); i++ {
 		vAssume(fv[i] >= 'a' && fv[i] <= 'z')
 	}
+	if len(fv) == 1 && vNondetBool("bracketed") {
+		// a value that itself ends with a bracket (a JSON array, an IPv6 literal): only the line's own
+		// delimiters are taken off
+		fv = "[" + fv + "]"
+	}
 	switch dec {
 	case config.DecoderURI:
 		if fileHasA {
